@@ -98,6 +98,21 @@ def mutants_of(rel, src, ops, only_funcs):
                         if "ANDOR" in ops and isinstance(x, ast.BoolOp):
                             yield ("%s:%s:ANDOR:%d.%d" % (rel, qn, k, bi), "%s:%d and<->or in `%s`" % (rel, line, ast.unparse(x)[:90]), ("ANDOR", qn, li, si, bi))
                             bi += 1
+                    di = 0
+                    for x in exprs:
+                        if "DROPCONJ" in ops and isinstance(x, ast.BoolOp) and len(x.values) >= 2:
+                            for vi in range(len(x.values)):
+                                yield ("%s:%s:DROPCONJ:%d.%d.%d" % (rel, qn, k, di, vi), "%s:%d drop operand `%s` of `%s`" % (rel, line, ast.unparse(x.values[vi])[:50], ast.unparse(x)[:70]),
+                                       ("DROPCONJ", qn, li, si, (di, vi)))
+                            di += 1
+                    ki = 0
+                    for x in exprs:
+                        if "DROPKW" in ops and isinstance(x, ast.Call) and x.keywords:
+                            for kj, kw in enumerate(x.keywords):
+                                if kw.arg:
+                                    yield ("%s:%s:DROPKW:%d.%d.%d" % (rel, qn, k, ki, kj), "%s:%d drop `%s=%s` in `%s`" % (rel, line, kw.arg, ast.unparse(kw.value)[:30], ast.unparse(x)[:60]),
+                                           ("DROPKW", qn, li, si, (ki, kj)))
+                            ki += 1
                     ci = 0
                     for x in exprs:
                         if "NONE" in ops and isinstance(x, ast.Compare) and len(x.ops) == 1 and isinstance(x.ops[0], (ast.Is, ast.IsNot)) \
@@ -152,6 +167,22 @@ def apply_mutation(src, spec):
                         for i, v in enumerate(val):
                             if v is x:
                                 val[i] = new
+        elif op == "DROPCONJ":
+            x = [e for e in exprs if isinstance(e, ast.BoolOp) and len(e.values) >= 2][arg[0]]
+            del x.values[arg[1]]
+            if len(x.values) == 1:
+                only = x.values[0]
+                for p in ast.walk(st):
+                    for fld, val in ast.iter_fields(p):
+                        if val is x:
+                            setattr(p, fld, only)
+                        elif isinstance(val, list):
+                            for i, v in enumerate(val):
+                                if v is x:
+                                    val[i] = only
+        elif op == "DROPKW":
+            x = [e for e in exprs if isinstance(e, ast.Call) and e.keywords][arg[0]]
+            del x.keywords[arg[1]]
         elif op == "SIDE":
             a, b = arg
             for e in exprs:
@@ -215,7 +246,7 @@ def sensitivity(prop: str, func_qnames, max_mutants: int = 240, jobs: int = 16):
     all_jobs = []
     for rel, fns in sorted(want.items()):
         src = open(os.path.join(REPO, rel)).read()
-        for mid, desc, spec in mutants_of(rel, src, {"DEL", "NEG", "ANDOR", "SIDE", "NONE"}, []):
+        for mid, desc, spec in mutants_of(rel, src, {"DEL", "NEG", "ANDOR", "SIDE", "NONE", "DROPCONJ", "DROPKW"}, []):
             if spec[1] in fns:
                 all_jobs.append((mid, desc, rel, spec, [prop]))
     all_jobs.sort(key=lambda j: hashlib.sha1(j[0].encode()).hexdigest())
